@@ -10,6 +10,7 @@ import (
 	"github.com/zishang520/engine.io-go-parser/packet"
 	"github.com/zishang520/engine.io/v2/log"
 	"github.com/zishang520/engine.io/v2/types"
+	"github.com/zishang520/engine.io/v2/utils"
 	"github.com/zishang520/engine.io/v2/vhook"
 )
 
@@ -22,11 +23,13 @@ type websocket struct {
 	mu      sync.Mutex
 	reading sync.Once
 
-	// sending and closePending (guarded by stateMu) let DoClose leave the
-	// connection open until a batch that is still being written is out
+	// sending and closePending (guarded by stateMu) let an orderly close leave
+	// the connection open until a batch that is still being written is out;
+	// closeTimer bounds that wait
 	stateMu      sync.Mutex
 	sending      bool
 	closePending bool
+	closeTimer   *utils.Timer
 }
 
 // WebSocket transport
@@ -155,9 +158,11 @@ func (w *websocket) send(packets []*packet.Packet) {
 		w.stateMu.Lock()
 		w.sending = false
 		closeNow := w.closePending
+		closeTimer := w.closeTimer
 		w.stateMu.Unlock()
 		if closeNow {
 			// DoClose ran while this batch was being written
+			utils.ClearTimeout(closeTimer)
 			w.socket.Close()
 		}
 
@@ -264,8 +269,11 @@ func (w *websocket) DoClose(fn types.Callable) {
 	defer func() {
 		w.stateMu.Lock()
 		if w.sending {
-			// the writer goroutine still holds a batch: it closes the connection when it is done
+			// the writer goroutine still holds a batch: it closes the connection when
+			// it is done. The wait is bounded: a peer that has stopped reading would
+			// otherwise keep the connection and the blocked writer for ever.
 			w.closePending = true
+			w.closeTimer = utils.SetTimeout(func() { w.socket.Close() }, orderlyCloseTimeout)
 			w.stateMu.Unlock()
 			return
 		}
